@@ -103,7 +103,7 @@ pub trait MapValidVec<T: IsNone>: Vec1View<T> {
             // lag 0: x / x - 1, null for a null or zero base
             _ => Box::new(self.titer().map(|v| {
                 let a: f64 = v.cast();
-                if a.not_none() && (a != 0.) { 0. } else { f64::NAN }
+                if a.not_none() && (a != 0.) { a / a - 1. } else { f64::NAN }
             })),
         }
     }
